@@ -824,6 +824,10 @@ bool QXmppOutgoingClient::handleStanza(const QDomElement &stanza)
             Q_EMIT iqReceived(iqPacket);
             return true;
         } else if (type == u"get" || type == u"set") {
+            // no stanza (not even an error reply) is sent on a link that still has to be encrypted
+            if (configuration().streamSecurityMode() == QXmppConfiguration::TLSRequired && !socket()->isEncrypted()) {
+                return false;
+            }
             // respond with error if we didn't understand the iq request
             QXmppIq iq(QXmppIq::Error);
             iq.setId(stanza.attribute(u"id"_s));
